@@ -27,6 +27,8 @@ Rec == ndJsonDeserialize(IOEnv.TABLE)
 Hdr == Rec[1].layouts
 Tab(i) == Rec[i + 1]
 NL == Len(Hdr)
+\* per-layout constants of the property clauses, computed once (TLC evaluates a constant-level definition once)
+LC == [i \in 1..NL |-> MP!LayoutConsts(Hdr[i].layout)]
 Replay == IF IOEnv.REPLAY = "" THEN <<>> ELSE ndJsonDeserialize(IOEnv.REPLAY)
 
 VARIABLES li, sid, phys, out, mon, viol, last, pos
@@ -72,11 +74,11 @@ Do(e) ==
              /\ viol' = (IF "C14" \in Props THEN {"C14-panic-step"} ELSE {})
              /\ UNCHANGED <<sid, phys, out, mon>>
         ELSE LET post == Tab(t.n).st
-                 c == MP!Check(Props, layout, Keys, pre, phys, out, mon, e, post, t.ev, t.rep)
+                 c == MP!CheckC(Props, layout, LC[li], Keys, pre, phys, out, mon, e, post, t.ev, t.rep)
              IN /\ sid' = t.n
                 /\ out' = MP!OutAfter(out, t.ev)
                 /\ phys' = MP!PhysPost(phys, e)
-                /\ mon' = MP!MonNext(Props, layout, pre, phys, mon, e, post)
+                /\ mon' = MP!MonNextC(Props, layout, LC[li].hasAbs, pre, phys, mon, e, post)
                 /\ viol' = c.v \ KnownIds
                 /\ Report(c.v) /\ Count(c.a)
                 /\ ("AUX" \in Props => LET ax == MP!Aux(layout, post) IN
